@@ -323,6 +323,10 @@ class PeriodicMessageTask:
         """
         self.bus = bus
         self.period = period
+        if data is not None:
+            # The message must not share its data with the caller's buffer,
+            # update() compares the old and the new content
+            data = bytes(data)
         self.msg = can.Message(is_extended_id=can_id > 0x7FF,
                                arbitration_id=can_id,
                                data=data, is_remote_frame=remote)
